@@ -12,6 +12,50 @@ import json
 import textwrap
 
 
+def observe_always_pushed(montepy):
+    """-> (sorted attributes, "") or (None, why): whose push_to_cells runs when a problem without data-level cell
+    modifiers is read"""
+    import os
+    import shutil
+    import tempfile
+    import warnings
+
+    calls = []
+    saved = []
+    tmp = tempfile.mkdtemp()
+    try:
+        for cls, (attr, _) in montepy.Cell._INPUTS_TO_PROPERTY.items():
+            orig = cls.__dict__.get("push_to_cells")
+            inherited = orig is None
+            func = getattr(cls, "push_to_cells")
+
+            def recorder(self, *a, _f=func, _attr=attr, **k):
+                calls.append(_attr)
+                return _f(self, *a, **k)
+
+            saved.append((cls, inherited, orig))
+            cls.push_to_cells = recorder
+        path = os.path.join(tmp, "probe.imcnp")
+        with open(path, "w") as fh:
+            fh.write("probe\n1 0 -1\n\n1 so 1\n\nnps 1\n")
+        with warnings.catch_warnings():
+            warnings.simplefilter("ignore")
+            montepy.read_input(path)
+        return sorted(set(calls)), ""
+    except Exception as e:  # noqa: BLE001
+        return None, f"not observed: {type(e).__name__}: {e}"[:200]
+    finally:
+        for cls, inherited, orig in saved:
+            if inherited:
+                try:
+                    delattr(cls, "push_to_cells")
+                except Exception:  # noqa: BLE001
+                    pass
+            else:
+                cls.push_to_cells = orig
+        shutil.rmtree(tmp, ignore_errors=True)
+
+
 def always_update_names(module, name="inputs_to_always_update"):
     """-> (sorted attribute names, note): the strings of the collection assigned to `name` anywhere in the module"""
     try:
@@ -69,12 +113,17 @@ def generate(write):
     for cls, (attr, cant_repeat) in montepy.Cell._INPUTS_TO_PROPERTY.items():
         prefix = cls._class_prefix()
         rows.append((cls.__name__, attr, bool(cant_repeat), prefix, bool(ctl[prefix])))
-    # the set `inputs_to_always_update` of cells.py (syntactic: the code never reads the set, so there is nothing to
-    # observe; no theorem consumes it either).  Round 7: looked for in the whole module (wherever a harmless rewrite
-    # puts the assignment: the method, a helper, the class body, the module), a name on the right-hand side is
-    # followed to its own assignment, set()/frozenset()/tuple()/list() around a literal are looked through;
-    # an unexpected shape gives the empty list and a note, never an exception of the translator.
-    always, always_note = always_update_names(montepy.cells)
+    # the per-cell attributes whose data-level object is pushed to the cells even when no input of the class was read
+    # (`inputs_to_always_update` of cells.py).  Round 7: OBSERVED (a file without any data-level cell modifier is
+    # read while every class's push_to_cells is recorded); the first version took the set literal from the AST of
+    # Cells.update_pointers, where the name is only a left-over, and raised on a right-hand side that is not a
+    # literal.  If the observation fails the assignment is looked for in the whole module (any function, the class
+    # body, the module; a name on the right-hand side is followed; set()/frozenset()/... are looked through); an
+    # unexpected shape gives the empty list and a note, never an exception of the translator.  No theorem consumes it.
+    always, always_note = observe_always_pushed(montepy)
+    if always is None:
+        always, note2 = always_update_names(montepy.cells)
+        always_note = always_note + "; " + note2 if note2 else always_note + "; taken from the source text"
     body = "namespace MontePyVerif.Gen\n\n"
     body += "/-- `cell.py: Cell._INPUTS_TO_PROPERTY` in dict order: (class, attribute, cant_repeat, `_class_prefix()`,\n"
     body += "    `CellDataPrintController()[prefix]` when nothing was set) -/\n"
@@ -82,14 +131,18 @@ def generate(write):
         f"({json.dumps(n)}, {json.dumps(a)}, {'true' if c else 'false'}, {json.dumps(p)}, {'true' if d else 'false'})"
         for n, a, c, p, d in rows
     ) + "]\n"
-    body += "/-- `cells.py: Cells.update_pointers: inputs_to_always_update` -/\n"
+    body += "/-- `cells.py: inputs_to_always_update`: attributes pushed to the cells although no input of the class was read (observed) -/\n"
     body += "def cellDataAlwaysUpdate : List String := [" + ", ".join(json.dumps(a) for a in always) + "]\n"
     if always_note:
         body += "-- not read: " + json.dumps(always_note) + "\n"
     # the keyword table of the lexer that reads cell cards: the prefix of every parameter a cell card can carry
-    from montepy.input_parser.tokens import CellLexer
+    try:
+        from montepy.input_parser.tokens import CellLexer
 
-    kws = sorted(str(k).lower() for k in CellLexer._KEYWORDS)
+        kws = sorted(str(k).lower() for k in CellLexer._KEYWORDS)
+    except Exception as e:  # noqa: BLE001  (unknown: only C09_cell_keywords fails, not the translator)
+        kws = []
+        body += "-- not read: " + json.dumps(f"CellLexer._KEYWORDS: {type(e).__name__}: {e}"[:200]) + "\n"
     body += "/-- `input_parser/tokens.py: CellLexer._KEYWORDS` (sorted): every word that can be the prefix of a cell parameter -/\n"
     body += "def cellLexerKeywords : List String := [" + ", ".join(json.dumps(k) for k in kws) + "]\n"
     body += "\nend MontePyVerif.Gen\n"
